@@ -43,8 +43,39 @@ def natOpt : Option Nat → PyVal
   | none => .none
   | some n => .int (Int.ofNat n)
 
+def kindName : PyVal → String
+  | .none => "NoneType" | .bool _ => "bool" | .int _ => "int" | .float _ => "float" | .str _ => "str"
+  | .bytes _ => "bytes" | .list _ => "list" | .dict _ => "dict"
+
+/-- The bindings of the harness's family scope (`none`: not one of them / not applicable to the
+configuration); `cell` reads the cell's value at the time of the expansion. -/
+def fnBinding (name : String) (cell : PyVal) (cfg : List PyVal) : Option PyVal :=
+  match name, cfg with
+  | "count", _ => some (.int (Int.ofNat cfg.length))
+  | "cell", _ => some cell
+  | "kind", a :: _ => some (.str (kindName a))
+  | "first", a :: _ => some a
+  | "triple", .int i :: _ => some (.int (i * 3))
+  | "triple", .bool b :: _ => some (.int (if b then 3 else 0))
+  | "triple", .str s :: _ => some (.str (s ++ s ++ s))
+  | "triple", .float b :: _ => some (.float (Float.ofBits b * 3).toBits)
+  | _, _ => none
+
+/-- one use of the history: `[binding name, [configuration...], length, cell]` -/
+def fnUse : PyVal → Option (FnUse (List PyVal) PyVal)
+  | .list [.str b, .list cfg, .int n, cell] =>
+    if n < 0 then none
+    else (fnBinding b cell cfg).map fun _ => ⟨fun c => (fnBinding b cell c).getD .none, cfg, n.toNat⟩
+  | _ => none
+
 def handle (op : String) (args : List PyVal) : Option (List PyVal) :=
   match op, args with
+  -- a history of expansions of function columns: every expansion is that use's own binding on that use's own
+  -- configuration, repeated to that use's length (`Enc.familyExpand`; `C09.gen_function_family_independent`
+  -- identifies it with the translated `FunctionColumn.materialize` run on every use)
+  | "family", [.list us] => do
+    let us ← us.mapM fnUse
+    pure [.list ((familyExpand us).map .list)]
   -- the block of the shared constructor as translated from the source: keywords `length`, `precision`,
   -- `scale` (null = not given) against the parameters parsed from the type name -> the attributes afterwards
   | "ctor", [n, p, s, dn, dp, ds] => do
